@@ -619,6 +619,31 @@ func microOps(c *hx.Ctx) {
 		}
 		c.Op("c11.cpn l="+hx.HexList(grp), b01(layout.VerifContainsPageNumberPattern(grp)))
 		c.Op("c11.charlevel l="+hx.HexList(grp), b01(layout.VerifIsCharacterLevel(grp)))
+		if i%6 == 0 {
+			// digit runs at and beyond the 64-bit range: parsePageNumber wraps around silently
+			// (parseDigits_eq_wrap), so "…807", "…808" and "2^64-1", "2^64" count as sequential
+			edges := []string{"9223372036854775806", "9223372036854775807", "9223372036854775808", "9223372036854775809",
+				"18446744073709551614", "18446744073709551615", "18446744073709551616", "18446744073709551617",
+				"36893488147419103232", "99999999999999999999", "100000000000000000000", "340282366920938463463374607431768211456",
+				"00000000000000000000007", "0", "1"}
+			var wg []string
+			e0 := r.Intn(len(edges))
+			for j, kk := 0, r.Range(2, 5); j < kk; j++ {
+				t := edges[(e0+j*r.Range(0, 2))%len(edges)]
+				switch r.Intn(4) {
+				case 0:
+					t = "Page " + t
+				case 1:
+					t = t + " of " + hx.Pick(r, edges)
+				case 2:
+					t = "- " + t + " -"
+				}
+				wg = append(wg, t)
+			}
+			c.Op("c11.cpn l="+hx.HexList(wg), b01(layout.VerifContainsPageNumberPattern(wg)))
+			c.Op("c11.norm "+hx.HexS(wg[0]), hx.HexS(layout.VerifNormalizeForComparison(wg[0])))
+			c.Count("micro:wrap-around-digit-runs")
+		}
 		c.Count("micro:text")
 		c.Case("micro:"+s+"|"+t, true)
 	}
